@@ -151,6 +151,7 @@ def check_binary_op_arms(prog):
         if op in ("BitAnd", "BitOr", "BitXor", "Lhs", "Rhs"):
             key = "bitwise:%s" % op
             na, nb = [x[0] for x in H.pat_binds(pa)], [x[0] for x in H.pat_binds(pb)]
+            body, na, nb = delegate(prog, body, na, nb)
             tr = [H.local_name(H.call_args(c)[0]) for c in H.calls(body, path=NUM + "::truncate_for_bitwise")]
             missing = [n for n in na + nb if n not in tr]
             # any other use of the raw payload (x.get() / *x as ...) other than the negative-shift test
@@ -168,6 +169,27 @@ def check_binary_op_arms(prog):
         if op not in seen:
             obs.append(bad(RULE, "arm:%s" % op, site(f), "no dedicated arm for BinaryOpType::%s" % op))
     return obs
+
+
+def delegate(prog, body, na, nb):
+    """an arm that only hands its operands to a local helper (`(Num(a), Lhs, Num(b)) => shift_left(*a, *b)?`) is analysed through
+    the helper's body, with the operand names mapped to the helper's parameters"""
+    b = H.strip_try(body)
+    if H.tag(b) != "call":
+        return body, na, nb
+    p = H.def_path(b[1])
+    h = prog.hir.get(p) if p else None
+    if not h or not p.startswith("jrsonnet_evaluator::") or len(h.get("params", [])) != len(b[2]):
+        return body, na, nb
+    names = [H.local_name(a) for a in b[2]]
+    pn = []
+    for q in h["params"]:
+        bs = H.pat_binds(q)
+        pn.append(bs[0][0] if bs else None)
+    m = dict(zip(names, pn))
+    if not all(n in m and m[n] for n in na + nb):
+        return body, na, nb
+    return h["body"], [m[n] for n in na], [m[n] for n in nb]
 
 
 def check_negative_shift(f, body, nb, key):
